@@ -3,8 +3,8 @@
   (jesse/store/state_candles.py), backtest mode.  The stored arrays are plain lists here: that the
   real `DynamicNumpyArray` behaves like a list under the operations used (append, a[-1], a[-i],
   a[-i] = x, a[:], len, append_multiple, a[-k:] = rows) is property C18 (Proofs/C18.lean); the
-  composition is proved for `add_candle` (Jesse/StoreD.lean, Proofs/C20.lean `addCandleD_refines`) and
-  not mechanised for `add_multiple_1m_candles`.  Tied to the real store by the
+  composition is proved for `add_candle` and (new / ending-at-the-last-minute chunks) `add_multiple_1m_candles`
+  (Jesse/StoreD.lean, Proofs/C20.lean `addCandleD_refines`, `addMultipleD_refines`).  Tied to the real store by the
   correspondence check (harness/props/c20.py, c07.py).
 -/
 import Jesse.Basic
